@@ -2,6 +2,8 @@ import CssVerif.Lemmas.Validate
 import CssVerif.Lemmas.ValidateGen
 import CssVerif.Model.ValidateReg
 import CssVerif.Model.Css21Keywords
+import CssVerif.Lemmas.ValueText
+import CssVerif.Model.OutPrefs
 /-!
 # C13 — the validation verdict depends only on name, value, profiles; validation only annotates
 
@@ -61,6 +63,83 @@ verdict the correspondence compares is the verdict of the model these theorems s
 theorem driver_acceptance_is_model_acceptance : accReFast = accRe := by
   funext r s
   simp [accReFast, accRe, acceptsFast_eq]
+
+
+/-! ## T13.3 — the value text handed to validation does not depend on comment / white-space placement
+
+Model: `Model/ValueText.lean` — `ProdParser.parse` on the value grammar (default COMMENT / S handling, `_SorTokens`,
+`nextSor`, `mayEnd`, `stopAndKeep`) followed by `do_css_PropertyValue(valuesOnly=True)` over `Out.append`.
+A *component* is a token that is neither S nor COMMENT (a term — for a function the whole run up to its `)` —,
+`,`, `/`, `;`, or a token the grammar refuses); `components ts` deletes the S and COMMENT tokens of a stream. -/
+
+open CssVerif.ValueText in
+/-- T13.3 `value_text_reads_components`. For every token stream, every preference record and nesting level:
+`Property.value` is obtained by (1) deleting comments and white space from the stream, (2) reading what is left as
+`term ( (',' | '/')? term )*` cut at `;` (`specValue`: `none` = the value is refused), (3) serialising the items.
+In particular the stream with its gaps enters only through `components`. No hypothesis. -/
+theorem value_text_reads_components (p : Out.Prefs) (lv : Nat) (ts : List VTok) :
+    propertyValue p lv ts = (specValue (components ts)).map (valueText p lv) :=
+  propertyValue_spec p lv ts
+
+open CssVerif.ValueText in
+/-- T13.3 `value_text_gap_invariant`: two spellings of a value with the same components (whatever comments and
+white space stand between, before and after them — also none at all, also S tokens in a row) have the same
+`Property.value`, or are both refused; under every serializer preference. -/
+theorem value_text_gap_invariant (p : Out.Prefs) (lv : Nat) (a b : List VTok) (h : components a = components b) :
+    propertyValue p lv a = propertyValue p lv b := by
+  rw [propertyValue_spec, propertyValue_spec, h]
+
+open CssVerif.ValueText in
+/-- the same as an edit: a run of comments and white space put anywhere into a value changes nothing -/
+theorem value_text_gap_insertion (p : Out.Prefs) (lv : Nat) (a g b : List VTok) (hg : ∀ t ∈ g, t.isGap = true) :
+    propertyValue p lv (a ++ g ++ b) = propertyValue p lv (a ++ b) := by
+  apply value_text_gap_invariant
+  simp [components_append, components_of_allGap hg]
+
+open CssVerif.ValueText in
+/-- the parsed item list itself (not only its serialisation) is the same up to the comment items -/
+theorem item_list_gap_invariant (a b : List VTok) (h : components a = components b) :
+    (parseValue a).map noComments = (parseValue b).map noComments := by
+  rw [parseValue_spec, parseValue_spec, h]
+
+open CssVerif.ValueText in
+/-- T13.3 → T13.1 `verdict_gap_invariant`: the verdict of `Property.validate` on the value parsed from a token
+stream (refused value: no verdict) is the same for two spellings with the same components — for every registry,
+acceptance function, property name, priority, `@font-face` context, preference record. -/
+theorem verdict_gap_invariant {π : Type} (acc : π → Str → Option Bool) (reg : Registry π) (ff : Str) (fontFace : Bool)
+    (name priority : Str) (p : Out.Prefs) (lv : Nat) (a b : List VTok) (h : components a = components b) :
+    (propertyValue p lv a).map (fun v => propValid acc reg ff fontFace { name := name, value := v, priority := priority }) =
+    (propertyValue p lv b).map (fun v => propValid acc reg ff fontFace { name := name, value := v, priority := priority }) := by
+  rw [value_text_gap_invariant p lv a b h]
+
+open CssVerif.ValueText in
+/-- the loop of `parseValue` never stops for lack of fuel: with more fuel than tokens the result is the same for
+every amount of it (`parseValue` runs it with `length + 1`) -/
+theorem value_parse_no_fuel (f : Nat) (st : Stream) (l : Loop) (h : st.size < f) (k : Nat) :
+    mainLoop (f + k) st l = mainLoop f st l :=
+  mainLoop_fuel f st l h k
+
+section
+open CssVerif.ValueText
+
+/-- non-vacuity and what the model computes on examples (tests, not theorems): `a /*c*/ , 1px`, `a,1px` and
+`/*x*/a/**/,/*y*/ 1px ` have the same components and the value text `a, 1px`; `a/**/1px` and `a 1px` give
+`a 1px`; `a ,/**/ , 1px`, `a,` and a lone comment are refused; `a,;` is cut at the `;` -/
+example :
+    components [exA, .s, .comment (cps "/*c*/"), .s, .op 44, .s, exB] = components [exA, .op 44, exB] ∧
+    propertyValue Out.Prefs.default 0 [exA, .s, .comment (cps "/*c*/"), .s, .op 44, .s, exB] = some (cps "a, 1px") ∧
+    propertyValue Out.Prefs.default 0 [exA, .op 44, exB] = some (cps "a, 1px") ∧
+    propertyValue Out.Prefs.default 0
+      [.comment (cps "/*x*/"), exA, .comment (cps "/**/"), .op 44, .comment (cps "/*y*/"), .s, exB, .s] = some (cps "a, 1px") ∧
+    propertyValue Out.Prefs.default 0 [exA, .comment (cps "/**/"), exB] = some (cps "a 1px") ∧
+    propertyValue Out.Prefs.default 0 [exA, .s, .s, exB] = some (cps "a 1px") ∧
+    propertyValue Out.Prefs.default 0 [exA, .s, .op 47, .s, exB] = some (cps "a/1px") ∧
+    propertyValue Out.Prefs.default 0 [exA, .s, .op 44, .comment (cps "/**/"), .s, .op 44, exB] = none ∧
+    propertyValue Out.Prefs.default 0 [exA, .op 44] = none ∧
+    propertyValue Out.Prefs.default 0 [.comment (cps "/*c*/")] = none ∧
+    propertyValue Out.Prefs.default 0 [exA, .op 44, .semi, exB] = some (cps "a,") := by
+  decide +kernel
+end
 
 /-! ## T13.2 — case insensitivity -/
 
